@@ -23,35 +23,71 @@ def offsets_fragment(body):
     return stmts + [ast.fix_missing_locations(r)]
 
 
-offsets = Contract(
-    MODULE, "read_bytes",
-    fragment=offsets_fragment,
+def branch_fragment(take_float):
+    """offsets_fragment with the `if size % blocksize and size > blocksize:` statement replaced by the branch that the
+    precondition selects (mechanical; the condition itself is the precondition).  In the `else` branch every value is a
+    Python int (blocksize1 = blocksize), in the `if` branch blocksize1 is a float."""
+    def frag(body):
+        out = []
+        hit = 0
+        for st in offsets_fragment(body):
+            if isinstance(st, ast.If) and ast.unparse(st.test) == "size % blocksize and size > blocksize":
+                hit += 1
+                out.extend(st.body if take_float else st.orelse)
+            else:
+                out.append(st)
+        assert hit == 1, "blocksize selection not found: contract no longer lines up"
+        return out
+    return frag
+
+
+_ENS = [
+    ("C50-one-length-per-offset", "len(result[0]) == len(result[1]) and len(result[0]) >= 1"),
+    ("C50-blocks-tile-the-file", "all(result[0][i] + result[1][i] == result[0][i + 1] for i in range(len(result[0]) - 1)) and result[0][len(result[0]) - 1] + result[1][len(result[1]) - 1] == size"),
+    ("C50-starts-at-the-beginning", "result[0][0] == (1 if not_zero else 0)"),
+    ("C50-no-empty-block", "all(result[1][i] >= 1 for i in range(1, len(result[1]))) and result[1][0] >= (0 if not_zero else 1)"),
+]
+_REQ = [("size", "1 <= size and size < 1099511627776"), ("blocksize", "1 <= blocksize and blocksize < 1099511627776")]
+
+offsets_int = Contract(
+    MODULE, "read_bytes[offsets, blocksize kept]", source="read_bytes",
+    fragment=branch_fragment(False),
     params={"size": T.Int, "blocksize": T.Int, "not_zero": T.Bool},
-    locals={"blocksize1": T.Real, "place": T.Real, "off": SI, "length": SI, "intpath": T.Bool},
+    locals={"blocksize1": T.Int, "place": T.Int, "off": SI, "length": SI},
     returns=T.Tup(SI, SI),
-    requires=[("size", "1 <= size and size < 1099511627776"), ("blocksize", "1 <= blocksize and blocksize < 1099511627776")],
-    ensures=[
-        ("C50-one-length-per-offset", "len(result[0]) == len(result[1]) and len(result[0]) >= 1"),
-        ("C50-blocks-tile-the-file", "all(result[0][i] + result[1][i] == result[0][i + 1] for i in range(len(result[0]) - 1)) and result[0][len(result[0]) - 1] + result[1][len(result[1]) - 1] == size"),
-        ("C50-starts-at-the-beginning", "result[0][0] == (1 if not_zero else 0)"),
-        ("C50-no-empty-block", "all(result[1][i] >= 1 for i in range(1, len(result[1]))) and result[1][0] >= (0 if not_zero else 1)"),
-    ],
+    requires=_REQ + [("branch", "not (size % blocksize != 0 and size > blocksize)")],
+    ensures=_ENS,
+    loops={0: dict(decreases="size - place", invariant=[
+        ("shape", "len(off) == len(length) + 1 and len(length) >= 0 and off[0] == 0"),
+        ("tiling", "all(off[i] + length[i] == off[i + 1] for i in range(len(length)))"),
+        ("positive", "all(length[i] >= 1 for i in range(len(length)))"),
+        ("place", "place == off[len(off) - 1] and place >= 0 and place < size"),
+        ("blocksize1", "blocksize1 == blocksize"),
+    ])},
+    note="all values are Python ints on this branch: exact integer arithmetic, termination included",
+)
+
+offsets_float = Contract(
+    MODULE, "read_bytes[offsets, blocksize shrunk]", source="read_bytes",
+    fragment=branch_fragment(True),
+    params={"size": T.Int, "blocksize": T.Int, "not_zero": T.Bool},
+    locals={"blocksize1": T.Real, "place": T.Real, "off": SI, "length": SI},
+    returns=T.Tup(SI, SI),
+    requires=_REQ + [("branch", "size % blocksize != 0 and size > blocksize")],
+    ensures=_ENS,
     loops={0: dict(invariant=[
         ("shape", "len(off) == len(length) + 1 and len(length) >= 0 and off[0] == 0"),
         ("tiling", "all(off[i] + length[i] == off[i + 1] for i in range(len(length)))"),
         ("positive", "all(length[i] >= 1 for i in range(len(length)))"),
         ("place", "off[len(off) - 1] <= place and place < off[len(off) - 1] + 1 and place >= 0 and place < size"),
-        ("blocksize1", "blocksize1 >= 1 and blocksize1 >= blocksize"),
-        ("integer-path", "implies(intpath, blocksize1 == blocksize and place == off[len(off) - 1])"),
-        ("float-path", "implies(not intpath, blocksize >= 2)"),
+        ("blocksize1", "blocksize1 >= 2 and blocksize1 >= blocksize"),
     ])},
     ghost=[("entry", "", "lemma_divmod(size, blocksize)"),
-           ("after", "blocksize1 = size / (size // blocksize)", "intpath = False\nassert_(size // blocksize >= 1, 'quotient-positive')\nassert_(realdiv(size, size // blocksize) >= blocksize, 'ratio-at-least-blocksize')"),
-           ("after", "blocksize1 = blocksize", "intpath = True")],
+           ("after", "blocksize1 = size / (size // blocksize)", "assert_(size // blocksize >= 1, 'quotient-positive')\nassert_(realdiv(size, size // blocksize) <= size, 'ratio-at-most-size')")],
     note="float accumulation under the rounding model; file sizes and block sizes below 2**40 (so every intermediate value is far below 2**53)",
 )
 
-CONTRACTS = [offsets]
+CONTRACTS = [offsets_int, offsets_float]
 
 
 def spec_is_integer(eng, st, x):
